@@ -7,13 +7,13 @@
     the next command, ... - nothing dropped, nothing added, in order; the decoder then stops silently at the next
     message root.  Object side: a decoded stream's events, split at the message roots, are exactly the per-message
     event lists, one per message, in order, with the pairing command / response-with-that-command's-code.
-    NOT PROVED: streams containing a malformed message (behaviour up to the first problem is C07/C10);
-    events_to_objs on the implementation (C11).  The oracle (stream vs individual decodes on the implementation,
+    and [events_to_objs] turns them into the objects of the individual decodes (C11_stream_events_rebuild_...).
+    NOT PROVED: streams containing a malformed message (behaviour up to the first problem is C07/C10).  The oracle (stream vs individual decodes on the implementation,
     Python == on events and objects) and the model correspondence on generated streams tie this to /repo.
     Statement file: theorem statements, [exact], Print Assumptions only. *)
 From Coq Require Import ZArith List String Bool.
 From TV Require Import Layout.Types gen.Tables Model.Monad Model.Message Model.Pump Model.Object Spec.Value Spec.Message
-  Proofs.ObjectProofs Proofs.Sim4 Proofs.Sim10 Proofs.Sim11 Proofs.Sim12.
+  Proofs.ObjectProofs Proofs.Sim4 Proofs.Sim10 Proofs.Sim11 Proofs.Sim12 Proofs.ObjEv Proofs.EvObj2 Proofs.StreamObj.
 Import ListNotations.
 Open Scope Z_scope.
 
@@ -47,3 +47,12 @@ Proof. exact roles_alternate. Qed.
 Theorem C09_one_object_per_message_partial : forall ms p, List.length (roles ms p) = List.length ms.
 Proof. exact roles_length. Qed.
 Print Assumptions C09_pairing_partial.
+
+(** object side for decoder output (no premise about the event lists): the events of a well-formed stream split at the
+    message roots into exactly the event lists of the messages decoded one by one *)
+Theorem C09_stream_events_split_into_its_messages :
+  forall T bs ps, msg_tables_ok T = true -> msg_named T = true -> msg_plain T = true ->
+    split_as T bs ps -> forallb (fun p => ok_leaves true (snd p)) ps = true -> Z.of_nat (List.length bs) < Z.pos stream_bound ->
+    separate_events (evs_of (map fst (fst (decode T true RStream bs)))) = map (msg_events T) ps.
+Proof. exact (fun T bs ps H1 H2 H3 => stream_events_split_into_its_messages T H1 H2 H3 bs ps). Qed.
+Print Assumptions C09_stream_events_split_into_its_messages.
